@@ -368,6 +368,27 @@ class C16(Prop):
     assumptions = ['mtime granularity (two writes in one tick) is outside the statement', 'quick tier models restarts by clearing parser_cache; the thorough tier adds real restarts (the same parse in a fresh interpreter sharing the cache directory)']
     budgets = {'quick': 6000, 'thorough': 150000}
     shrink_fields = ('ops',)
+    hang_timeout = 150         # seconds without progress of a worker (a history takes well under a second; a second reader that
+    #                            waits costs at most 4 + 60 s) before the parent inspects its current case
+
+    def confirm_hang(self, case):
+        """A worker stopped making progress on a history (e.g. a parse that waits for a lock or an event that nobody will ever
+        release).  Confirmed in isolation: two fresh interpreters, 180 s each, for a history that normally takes milliseconds."""
+        import json
+        import subprocess
+        import sys
+        from ..common import REPO, VERIF
+        prog = ('import sys, json; sys.path.insert(0, %r); sys.path.insert(1, %r); from vf.props import c16; '
+                'c16.run_history([tuple(o) for o in json.load(sys.stdin)["ops"]]); print("done")' % (REPO, VERIF))
+        for _ in range(2):
+            try:
+                r = subprocess.run([sys.executable, '-c', prog], input=json.dumps(case).encode(), capture_output=True, timeout=180,
+                                   env=dict(os.environ, VERIF_REPO=REPO, PYTHONHASHSEED='0'))
+                if b'done' in r.stdout or r.returncode != 0:
+                    return None
+            except subprocess.TimeoutExpired:
+                continue
+        return ('does-not-terminate', 'history did not finish within 180 s in two isolated runs: %s' % short(case['ops'], 300))
 
     def strategy(self, tier):
         op = _op
